@@ -351,6 +351,53 @@ def genRingStar (area : Num α) (n : Nat) : GenOut α :=
   let star : List (GEdge α) := (List.range' 1 (n - 1)).map fun i => pair (modName 0) (modName i)
   { modules := genModules area n 0, nets := ring ++ star }
 
+section centres
+variable [Add α] [Mul α] [Div α] [NatCast α]
+
+/-- grid positions in generation order (`for r in range(rows) for c in range(columns)`). -/
+def gridIdx (rows columns : Nat) : List (Nat × Nat) :=
+  (List.range rows).flatMap fun r => (List.range columns).map fun c => (r, c)
+
+/-- `(0.5 + k) * (extent / count) + random.gauss(0, sd)` -/
+def gridCentreCoord (k : Nat) (extent : α) (count : Nat) (noise : α) : α :=
+  (((1 : Nat) : α) / ((2 : Nat) : α) + ((k : Nat) : α)) * (extent / ((count : Nat) : α)) + noise
+
+/-- `d[key] = c` on a document dictionary (replace in place, else append). -/
+def yInsert (key : String) (c : YVal α) : List (YVal α × YVal α) → List (YVal α × YVal α)
+  | [] => [(.str key, c)]
+  | kv :: r => if kv.1.str? = some key then (kv.1, c) :: r else kv :: yInsert key c r
+
+/-- `info[KW_CENTER] = c` on a module's info dictionary. -/
+def addCentre (c : YVal α) : YVal α → YVal α
+  | .map l => .map (yInsert "center" c l)
+  | v => v
+
+/-- `modules[name][KW_CENTER] = c`. -/
+def setCentre (d : Dict α) (name : String) (c : YVal α) : Dict α :=
+  d.map fun kv => if kv.1 = name then (kv.1, addCentre c kv.2) else kv
+
+/-- the centre `--add-centers` gives module `(r, c)`; `noise` = the `random.gauss` draws in the order they are made
+    (x then y, module after module). -/
+def gridCentreY (rows columns : Nat) (W H : α) (noise : List α) (rc : Nat × Nat) : YVal α :=
+  let k := rc.1 * columns + rc.2
+  .seq [.float (gridCentreCoord rc.2 W columns (noise.getD (2 * k) ((0 : Nat) : α))),
+        .float (gridCentreCoord rc.1 H rows (noise.getD (2 * k + 1) ((0 : Nat) : α)))]
+
+/-- `gen_modules(area, rows, columns, add_centers=True, sd, die_shape)` for `columns > 0`: the dictionary of
+    `{area}` entries, then the loop that adds a centre to every entry. -/
+def genModulesCentred (area : Num α) (rows columns : Nat) (W H : α) (noise : List α) : Dict α :=
+  (gridIdx rows columns).foldl
+    (fun d rc => setCentre d (modName2 rc.1 rc.2) (gridCentreY rows columns W H noise rc))
+    (dictOfList ((gridIdx rows columns).map fun rc => (modName2 rc.1 rc.2, modInfo area)))
+
+/-- `gen_grid(rows, columns, area, add_centers=True, sd, die_shape)` (`columns ≥ 1`; with `columns = 0` Python builds a
+    chain-named dictionary and the centre loop is empty). -/
+def genGridCentred (area : Num α) (rows columns : Nat) (W H : α) (noise : List α) : GenOut α :=
+  { modules := if columns = 0 then genModules area rows columns else genModulesCentred area rows columns W H noise,
+    nets := (genGrid area rows columns).nets }
+
+end centres
+
 section htree
 variable [Mul α] [NatCast α]
 
